@@ -46,10 +46,10 @@ theorem spans_of_fromGapped (s : List Bool) : absSpans (fromGapped s) = ofPatter
 
 example : absSpans (fromGapped [true, true, false]) = [none, none, some 0] := by decide
 
-/-- The model exhibits the slicing defect: the map of `G--` sliced by `[0:4]` claims 2 residues and
-4 columns, while the string slice `G--` has 1 residue and 3 columns (stop is not clamped to `len`). -/
-theorem getitem_stop_beyond_len_counter :
-    (getitem (fromGapped [false, true, true]) (some 0) (some 4) none).toOption = some ⟨[1], [2], 2⟩ ∧
+/-- Regression anchor for the repaired clamp: the map of `G--` sliced by `[0:4]` is the map of the
+string slice `G--` (1 residue, 3 columns). -/
+theorem getitem_clamps_stop_example :
+    (getitem (fromGapped [false, true, true]) (some 0) (some 4) none).toOption = some (fromGapped [false, true, true]) ∧
     Gapped.slice (ofPattern [false, true, true]) (some 0) (some 4) = [some 0, none, none] := by decide
 
 /- FULL STATEMENT (not proved): `getitem_spec` —
